@@ -461,7 +461,7 @@ inductive Op where
   | limit (b : Bool)
   | preempt (k : Nat)
   | restart (uid : Nat)         -- controller restart: new reconcilerUID, empty assumed-cache
-  | rec (faults : Nat)
+  | recon (faults : Nat)
 deriving DecidableEq, Repr
 
 def step (w : World) : Op → World × Out
@@ -473,7 +473,7 @@ def step (w : World) : Op → World × Out
   | .limit b => ({ w with env := { w.env with limited := b } }, ⟨[], []⟩)
   | .preempt k => ({ w with env := { w.env with preempt := k } }, ⟨[], []⟩)
   | .restart u => ({ w with env := { w.env with ctrl := u } }, ⟨[], []⟩)
-  | .rec f => reconcile w f
+  | .recon f => reconcile w f
 
 /-- run a history; returns the final world and all evictor calls in order -/
 def run : World → List Op → World × List Snap
